@@ -8,7 +8,7 @@
    re-hash) enters the model as the SPECIFICATION of a verifying reader (accept exactly the
    tiles of the tree the lock checkpoint commits to); that the real reader meets it is what the
    tamper stream of the correspondence harness tests. Hence "C08_partial". *)
-From SL Require Import Ctlog.Model Ctlog.Spec Ctlog.Theorems Ctlog.Example.
+From SL Require Import Ctlog.Model Ctlog.Spec Ctlog.Theorems Ctlog.Origin Ctlog.Example.
 
 Theorem C08_partial : forall (sha : bytes -> bytes) (evs : list ev),
   let w := run sha evs init in
@@ -40,6 +40,15 @@ Theorem C08_next_checkpoint_extends_committed_tree : forall (sha : bytes -> byte
   In (i_tree x, i_leaves x) (w_lockhist (run sha evs init)).
 Proof. exact next_checkpoint_extends_committed_tree. Qed.
 Print Assumptions C08_next_checkpoint_extends_committed_tree.
+
+(* "...by precisely the newly acknowledged entries": whatever was done to object storage, every leaf
+   of every committed tree is built from an entry that an EvSubmit of this history carried — no
+   content of a (tampered) stored object ever becomes a leaf *)
+Theorem C08_committed_leaves_were_submitted : forall (sha : bytes -> bytes) evs c ls sl,
+  In (c, ls) (w_lockhist (run sha evs init)) -> In sl ls ->
+  exists e idx ts, submitted evs e /\ sl = mkSleaf (leaf_of sha e idx ts) (names_line (e_names e) ts).
+Proof. exact committed_leaves_were_submitted. Qed.
+Print Assumptions C08_committed_leaves_were_submitted.
 
 (* non-vacuity: tampering is an ordinary event of the quantified-over event lists *)
 Example C08_tamper_is_an_event : exists e : ev, e = EvTamper k_checkpoint None.
